@@ -93,5 +93,3 @@ func c11RealPipe(res *hx.Result, hang time.Duration, reps int) {
 		}
 	}
 }
-
-func c11RealKinds(res *hx.Result, hang time.Duration, tier string) {}
